@@ -391,3 +391,96 @@ def scale_normal(c):
     p, d = free_point(c), c.unit3('L', 'M', 'N')
     c.require(d[2] != 0)
     c.ensure_eq('C07.scale.kernel.plane_distance_scales', c.val(pl.distance(mk_rays(c, tuple(s * v for v in p), d))), s * c.val(pl.distance(mk_rays(c, p, d))))
+
+
+def _dummy_paraxial(ct, tier, seed):
+    """bounded: a dummy plane (same medium on both sides) inserted in any gap -- the object gap included -- changes no paraxial
+    quantity: marginal and chief rays at the original surfaces, invariant, focal length, Seidel sums"""
+    import random
+    import time
+    import warnings
+    import numpy as np
+    from optiland.optic import Optic
+    from optiland.materials import IdealMaterial
+    warnings.simplefilter('ignore')
+    np.seterr(all='ignore')
+    t0 = time.time()
+    rng = random.Random(seed * 61 + 15)
+    clauses, fails, cases = {}, [], 0
+
+    def note(cid, ok, detail, inputs):
+        c_ = clauses.setdefault(cid, {'paths': 0, 'proved': 0, 'backends': {}, 'failed': [], 'seconds': 0.0, 'bounded': True})
+        c_['paths'] += 1
+        if ok:
+            c_['proved'] += 1
+            c_['backends']['runtime'] = c_['backends'].get('runtime', 0) + 1
+        else:
+            fails.append({'clause': cid, 'draws': inputs, 'note': detail})
+    for i in range(2 if tier == 'quick' else 10):
+        finite = True if i % 2 == 0 else False
+        par = dict(T0=rng.uniform(80, 200), R1=rng.uniform(30, 80), R2=-rng.uniform(30, 80), R3=rng.uniform(40, 90), R4=-rng.uniform(40, 90),
+                   n1=rng.uniform(1.5, 1.7), n2=rng.uniform(1.5, 1.7), t=[rng.uniform(3, 6), rng.uniform(4, 12), rng.uniform(3, 6), rng.uniform(30, 60)])
+        gaps = [(par['T0'] if finite else np.inf)] + par['t']
+        mats = ['air', IdealMaterial(par['n1']), 'air', IdealMaterial(par['n2']), 'air']
+        radii = [np.inf, par['R1'], par['R2'], par['R3'], par['R4']]
+
+        def build(split_gap=None, frac=0.5):
+            L = Optic()
+            idx = 0
+            orig = []
+            for g in range(5):
+                kw = dict(radius=radii[g], material=mats[g], is_stop=(g == 3))
+                thick = gaps[g]
+                if split_gap == g and np.isfinite(thick):
+                    L.add_surface(index=idx, thickness=thick * frac, **kw)
+                    orig.append(idx)
+                    idx += 1
+                    L.add_surface(index=idx, radius=np.inf, thickness=thick * (1 - frac), material=mats[g])      # the dummy
+                    idx += 1
+                else:
+                    L.add_surface(index=idx, thickness=thick, **kw)
+                    orig.append(idx)
+                    idx += 1
+            L.add_surface(index=idx)
+            orig.append(idx)
+            L.set_aperture('EPD', 6.0)
+            if finite:
+                L.set_field_type('object_height')
+                L.add_field(y=0.0)
+                L.add_field(y=4.0)
+            else:
+                L.set_field_type('angle')
+                L.add_field(y=0.0)
+                L.add_field(y=5.0)
+            L.add_wavelength(0.55, is_primary=True)
+            return L, orig
+        base, ob = build()
+        ya0, ua0 = base.paraxial.marginal_ray()
+        yb0, ub0 = base.paraxial.chief_ray()
+        ref = dict(f2=float(base.paraxial.f2()), inv=float(base.paraxial.invariant()), seidel=np.array(base.aberrations.seidels(), dtype=float))
+        for g in range(5):
+            if not np.isfinite(gaps[g]):
+                continue
+            L, oi = build(split_gap=g, frac=rng.uniform(0.2, 0.8))
+            ya, ua = L.paraxial.marginal_ray()
+            yb, ub = L.paraxial.chief_ray()
+            inputs = {'lens': {k_: (v_ if not isinstance(v_, list) else list(v_)) for k_, v_ in par.items()}, 'finite_object': finite, 'dummy_in_gap': g}
+            cases += 1
+            sel = oi[1:]
+            selb = ob[1:]
+            ok_rays = bool(np.allclose(ya[sel, 0], ya0[selb, 0], rtol=1e-9, atol=1e-9)) and bool(np.allclose(yb[sel, 0], yb0[selb, 0], rtol=1e-9, atol=1e-9)) \
+                and bool(np.allclose(ub[sel, 0], ub0[selb, 0], rtol=1e-9, atol=1e-9))
+            note('C07.runtime.dummy_plane_leaves_paraxial_rays_at_the_original_surfaces', ok_rays,
+                 'gap %d: chief heights %s vs %s' % (g, np.round(yb[sel, 0], 5), np.round(yb0[selb, 0], 5)), inputs)
+            note('C07.runtime.dummy_plane_leaves_focal_length_and_invariant', bool(np.isclose(float(L.paraxial.f2()), ref['f2'], rtol=1e-9)) and
+                 bool(np.isclose(float(L.paraxial.invariant()), ref['inv'], rtol=1e-9, atol=1e-12)), 'gap %d' % g, inputs)
+            note('C07.runtime.dummy_plane_leaves_seidel_sums', bool(np.allclose(np.array(L.aberrations.seidels(), dtype=float), ref['seidel'], rtol=1e-7, atol=1e-10)),
+                 'gap %d: %s vs %s' % (g, np.array(L.aberrations.seidels(), dtype=float), ref['seidel']), inputs)
+    return {'contract': ct.name, 'functions': ct.functions, 'props': ct.props,
+            'symbolic': {'clauses': clauses, 'paths': 0, 'errors': [], 'solver_s': 0.0, 'samples': [], 'wd_assumed': [], 'assumed': []},
+            'numeric': {'accepted': cases, 'rejected': 0, 'failures': fails[:10], 'concolic_agree': 0, 'encoder_mismatches': [],
+                        'samples': [{'lens': 'two air-spaced singlets, stop on the third surface'}]}, 'wall_s': time.time() - t0}
+
+
+contract('C07.runtime.dummy_paraxial', ['optiland/paraxial.py:Paraxial.chief_ray', 'optiland/paraxial.py:Paraxial.marginal_ray', 'optiland/paraxial.py:Paraxial.invariant',
+                                        'optiland/aberrations.py:Aberrations.seidels'], ['C07'], custom=_dummy_paraxial)(lambda c: None)
